@@ -26,6 +26,8 @@ use std::task::Waker;
 
 struct GateInner {
   released: Cell<bool>,
+  /// extra Pending answers (with self-wake) after the release
+  extra_suspensions: Cell<u32>,
   waker: RefCell<Option<Waker>>,
   label: String,
 }
@@ -62,6 +64,8 @@ pub struct Sched {
   pub events: RefCell<Vec<String>>,
   /// extra suspensions injected before a released gate reports Ready
   pub max_outstanding: Cell<usize>,
+  /// when set, the driver may make a released future suspend once more
+  pub allow_suspensions: Cell<bool>,
 }
 
 impl Sched {
@@ -72,6 +76,7 @@ impl Sched {
       tasks: Default::default(),
       events: Default::default(),
       max_outstanding: Cell::new(0),
+      allow_suspensions: Cell::new(false),
     })
   }
 
@@ -86,6 +91,7 @@ impl Sched {
     }
     let inner = Rc::new(GateInner {
       released: Cell::new(false),
+      extra_suspensions: Cell::new(0),
       waker: RefCell::new(None),
       label,
     });
@@ -118,9 +124,10 @@ impl Sched {
       .collect()
   }
 
-  fn release(&self, i: usize) {
+  fn release(&self, i: usize, extra: u32) {
     let g = self.gates.borrow()[i].clone();
     g.released.set(true);
+    g.extra_suspensions.set(extra);
     self.events.borrow_mut().push(format!("complete {}", g.label));
     if let Some(w) = g.waker.borrow_mut().take() {
       w.wake();
@@ -155,6 +162,13 @@ impl<T> Future for GateFut<T> {
   type Output = T;
   fn poll(mut self: Pin<&mut Self>, cx: &mut Context<'_>) -> Poll<T> {
     if self.inner.released.get() {
+      let extra = self.inner.extra_suspensions.get();
+      if extra > 0 {
+        // a suspension of an operation that is already complete
+        self.inner.extra_suspensions.set(extra - 1);
+        cx.waker().wake_by_ref();
+        return Poll::Pending;
+      }
       Poll::Ready(self.value.take().expect("gate polled after completion"))
     } else {
       *self.inner.waker.borrow_mut() = Some(cx.waker().clone());
@@ -211,7 +225,8 @@ pub fn drive<T>(
       ch.shape("sched", n)
     };
     if k < gates.len() {
-      sched.release(gates[k]);
+      let extra = if sched.allow_suspensions.get() { ch.choose("extra_suspension", 3) as u32 } else { 0 };
+      sched.release(gates[k], extra);
     } else {
       sched.poll_task(tasks[k - gates.len()]);
     }
